@@ -232,8 +232,8 @@ WORLD_TRUST = [
     "R11: Box<dyn Error> => opaque VErr",
 ]
 BISYNC_UNIT = dict(template="units/bisync.rs", slice=["*"])
-BISYNC_TWIN = dict(name="bisync_histories", repo_fn="src/bin/copia/bidir.rs run_bisync", quick=1, thorough=1, needs_cli=True,
-                   contract="18 hand-built histories over {write, delete, bisync, dry-run, archive faults, edited/deleted conflict copies} on the real binary: no version lost (C02), converge + record == tree + idempotent (C06), no removal after an archive fault (C07), dry run changes nothing (C15)")
+BISYNC_TWIN = dict(name="bisync_histories", repo_fn="src/bin/copia/bidir.rs run_bisync", quick=1, thorough=90, needs_cli=True,
+                   contract="23 hand-built histories over {write, delete, bisync, dry-run, archive faults, edited/deleted conflict copies, one mtime for every file, leftover staging files} on the real binary, plus an strace pass (open-for-write only on *.copia-tmp, fsync before rename); thorough: plus random histories over the same alphabet for 90 s. Clauses per run: no version lost (C02), converge + record == tree + idempotent (C06), no removal after an archive fault (C07), no foreign bytes at a live path (C08), dry run changes nothing (C15)")
 
 def _bisync(clauses, ignore=None, not_decided=(), only_re=None):
     u = dict(BISYNC_UNIT)
@@ -270,8 +270,8 @@ PROPS["C15"]["units"].append(dict(template="units/bisync.rs", slice=["run_bisync
 PROPS["C15"]["clauses"]["bisync --dry-run"] = "run_bisync: opts.dry_run ==> the world (files and effect log) is unchanged"
 PROPS["C15"]["trusted"] = COMMON_TRUST + PATH_TRUST + WORLD_TRUST
 
-SERVE_TWIN = dict(name="serve_sessions", repo_fn="src/bin/copia/serve.rs", quick=1, thorough=1, needs_cli=True,
-                  contract="13 deterministic sessions against one or two real `copia serve` processes on one root (interleavings forced by withholding content, holding the commit flock, or strace delay injection): refused Puts keep the stream in step, no path escapes, short content + EOF terminates, bad prologue touches nothing, oversize frame rejected, exactly one of two racing CAS Puts commits, committed means live, overlapping Puts never publish mixed bytes, Delete during Put loses nothing, leftover staging is not published, hash mismatch changes nothing, Get announces what it streams")
+SERVE_TWIN = dict(name="serve_sessions", repo_fn="src/bin/copia/serve.rs", quick=1, thorough=60, needs_cli=True,
+                  contract="15 deterministic sessions against one to three real `copia serve` processes on one root (interleavings forced by withholding content, holding the commit flock, or strace delay injection): refused Puts keep the stream in step, no path escapes, short content + EOF terminates, bad prologue touches nothing, oversize frame rejected, exactly one of two racing CAS Puts commits, committed means live, overlapping Puts never publish mixed bytes, Delete during Put loses nothing, leftover staging is not published, hash mismatch changes nothing, Get announces what it streams")
 SERVE_TRUST = COMMON_TRUST + [
     "Kani 0.68 + CBMC 6.11 for cas_decide (complete, loop-free, arbitrary 32-byte hashes) on the unedited wire.rs",
     "fs2 flock gives mutual exclusion across server processes; the standard argument 'atomic sections under one lock + CAS at lock acquisition ==> linearizable' is stated, not mechanised",
